@@ -35,6 +35,9 @@ pub fn plan(quick: bool) -> Vec<Part> {
     }
     for k in BIG_K {
         v.push(d(Part::new("C09", "catalogue", k, Space { segs: vec![catalogue(k)] })));
+        if !quick || LIFT_QUICK_K.contains(&k) {
+            v.push(d(Part::new("C09", "lifted", k, vcommon::families::lifted(k, !quick))));
+        }
     }
     v
 }
@@ -69,8 +72,8 @@ fn singletons<K: Kmer, D: Clone>(stranded: bool, tab: &Tab<K, D>) -> BaseGraph<K
 }
 
 fn partial<K: Kmer, D: Clone + Debug, S2: CompressionSpec<D>>(stranded: bool, spec: &S2, tab: &Tab<K, D>, mask: u64, swap: bool) -> BaseGraph<K, D> {
-    let a: Tab<K, D> = tab.iter().enumerate().filter(|(i, _)| mask >> i & 1 == 1).map(|(_, x)| x.clone()).collect();
-    let b: Tab<K, D> = tab.iter().enumerate().filter(|(i, _)| mask >> i & 1 == 0).map(|(_, x)| x.clone()).collect();
+    let a: Tab<K, D> = tab.iter().enumerate().filter(|(i, _)| mask >> (i % 64) & 1 == 1).map(|(_, x)| x.clone()).collect();
+    let b: Tab<K, D> = tab.iter().enumerate().filter(|(i, _)| mask >> (i % 64) & 1 == 0).map(|(_, x)| x.clone()).collect();
     let ga = compress_kmers(stranded, spec, &a);
     let gb = compress_kmers(stranded, spec, &b);
     let v = if swap { vec![gb, ga] } else { vec![ga, gb] };
@@ -177,7 +180,9 @@ pub fn run<K: Kmer + Send + Sync>(c: &GCase) -> Outcome {
         }
     }
 
-    // a NON-reflexive predicate (equal payloads never join): compress_graph must consult the caller's predicate for every join
+    // a NON-reflexive predicate (equal payloads never join) on a graph whose payloads are all equal: whatever
+    // the predicate is evaluated on (adjacent nodes or the payload folded so far), nothing may be joined, so
+    // compress_graph must consult the caller's predicate even for equal payloads
     {
         struct NeverEqual;
         impl CompressionSpec<u16> for NeverEqual {
@@ -188,9 +193,10 @@ pub fn run<K: Kmer + Send + Sync>(c: &GCase) -> Outcome {
                 a != b
             }
         }
-        let differ = |a: &S, b: &S| t.e[a].count() != t.e[b].count();
-        let g1 = compress_graph(c.stranded, &NeverEqual, singletons(c.stranded, &pruned).finish_serial(), None);
-        note(&mut o, "singletons->recompress/non-reflexive-predicate", check_maximal(&view(&g1), t, &differ));
+        let never = |_: &S, _: &S| false;
+        let flat: Tab<K, u16> = pruned.iter().map(|(k, (e, _))| (*k, (*e, 1u16))).collect();
+        let g1 = compress_graph(c.stranded, &NeverEqual, singletons(c.stranded, &flat).finish_serial(), None);
+        note(&mut o, "singletons->recompress/non-reflexive-predicate", check_maximal(&view(&g1), t, &never));
         note(&mut o, "singletons->recompress/non-reflexive-predicate", check_lossless(&view(&g1), t, true));
     }
     // the censor list is a set: order and repetitions must not matter
